@@ -15,7 +15,15 @@ WHAT="$1"; TIER="$2"; shift 2
 if [ -f "/verif/seeded/$WHAT/patch.diff" ]; then PATCH=/verif/seeded/$WHAT/patch.diff; ID=$WHAT; else PATCH="$WHAT"; ID=""; fi
 mkdir -p $BASE
 if [ ! -d $BASE/repo ]; then git -C /repo worktree add -q --detach $BASE/repo HEAD || exit 2; cp /repo/Cargo.lock $BASE/repo/ 2>/dev/null; fi
-rsync -a --delete --exclude target --exclude .git --exclude .run --exclude replays --exclude evidence /verif/ $BASE/verif/
+# the machinery that is evaluated is the COMMITTED one (work in progress in /verif does not leak into results);
+# ISO_FROM=worktree copies the working tree instead. Checksum-based copy: unchanged files keep their mtime (no rebuild).
+if [ "${ISO_FROM:-head}" = "worktree" ]; then
+  rsync -a --delete --exclude target --exclude .git --exclude .run --exclude replays --exclude evidence /verif/ $BASE/verif/
+else
+  rm -rf $BASE/verif.new && mkdir -p $BASE/verif.new $BASE/verif && git -C /verif archive HEAD | tar -x -C $BASE/verif.new
+  rsync -rlpc --delete --exclude target --exclude .run --exclude replays --exclude evidence $BASE/verif.new/ $BASE/verif/
+  rm -rf $BASE/verif.new
+fi
 mkdir -p $BASE/verif/evidence
 sed -i "s#/repo/cadence#$BASE/repo/cadence#g" $BASE/verif/harness/Cargo.toml $BASE/verif/fuzz/Cargo.toml
 git -C $BASE/repo checkout -q -- . && git -C $BASE/repo apply "$PATCH" || { echo "patch does not apply"; exit 2; }
